@@ -19,7 +19,7 @@ def open_(id, prop, what, witness, quarantine):
     F.append({"id": id, "property": prop, "status": "open", "what": what, "witness": witness, "quarantine": quarantine})
 
 fixed("D01", "C02", "16-bit codec for int16", "int16 fields were encoded/decoded with the 32-bit codec: wrong wire bytes, 4-byte store into a 2-byte field (also violates C01, C03, C05, C13)", "findings/D01-int16-width.json")
-fixed("D04", "C11", "MapCodec.New returns a pointer", "*map[string]T and map-of-map targets: decoded map referenced only from a non-pointer word of a runtime map header, reclaimed by the next GC (also C01, C03)")
+fixed("D04", "C11", "MapCodec.New returns a pointer", "*map[string]T and map-of-map targets: decoded map referenced only from a non-pointer word of a runtime map header, reclaimed by the next GC (also C01, C03); witness obtained by re-applying the pre-fix code (mutants/D04-revert-mapcodec-new.patch) under C11", "findings/D04-map-behind-pointer-gc.json")
 fixed("D03", "C03", "allocate the map value slot", "maps whose values are a [null,T] union (pointer values, null.* wrappers, time.Time) dereferenced nil while decoding (also C01, C20)")
 fixed("D05", "C02", "zero value for a nil pointer", "nil *[]T / *map[string]T wrote no bytes at all, producing an undecodable record (also C01)")
 fixed("D18", "C02", "pointer to a null value is written as null", "non-nil pointer to a nil pointer / invalid null.* wrapper was written as the non-null branch")
